@@ -36,9 +36,9 @@ RESULTS=""
 for id in "$@"; do
   out=$(/verif/check "$id" quick 2>&1); rc=$?
   nv=$(echo "$out" | grep -c '^VIOLATION')
-  first=$(echo "$out" | grep -A1 '^VIOLATION' | sed -n 2p | cut -c1-300 | sed 's/"/\\"/g')
+  first=$(echo "$out" | grep -A1 '^VIOLATION' | sed -n 2p | cut -c1-300)
   echo "  check $id: exit=$rc violations=$nv"
-  RESULTS="$RESULTS{\"check\":\"$id\",\"exit\":$rc,\"violation_lines\":$nv,\"first\":\"$first\"},"
+  printf '%s\t%s\t%s\t%s\n' "$id" "$rc" "$nv" "$first" >> "/tmp/confirm-results-$$.tsv"
 done
 git -C /repo checkout -- .
 mkdir -p "/verif/seeded/$NAME"
@@ -46,14 +46,17 @@ cp "$PATCH" "/verif/seeded/$NAME/patch.diff"
 cp "$DEMO" "/verif/seeded/$NAME/demo_test.go"
 cp "$NOTES" "/verif/seeded/$NAME/notes.md" 2>/dev/null
 BASE=$(git -C /repo rev-parse --short HEAD)
-cat > "/verif/seeded/$NAME/meta.json" <<META
-{
- "property": "$PROP",
- "base_commit": "$BASE",
- "needs": "see notes.md (written by the independent sub-agent that produced the change)",
- "confirmed": {"demo_passes_on_clean_tree": true, "repo_suite_passes_with_patch": true, "demo_fails_with_patch": true,
-               "how": "tools/confirm_mutant.sh in a scratch worktree of /repo (removed afterwards)"},
- "quick_checks_with_patch": [${RESULTS%,}]
-}
-META
+PROP="$PROP" BASE="$BASE" python3 - "/tmp/confirm-results-$$.tsv" "/verif/seeded/$NAME/meta.json" <<'PY'
+import json, os, sys
+checks = []
+for line in open(sys.argv[1]):
+    c, rc, nv, first = line.rstrip("\n").split("\t", 3)
+    checks.append({"check": c, "exit": int(rc), "violation_lines": int(nv), "first": first.strip()})
+json.dump({"property": os.environ["PROP"], "base_commit": os.environ["BASE"],
+           "needs": "see notes.md (written by the independent sub-agent that produced the change)",
+           "confirmed": {"demo_passes_on_clean_tree": True, "repo_suite_passes_with_patch": True, "demo_fails_with_patch": True,
+                         "how": "tools/confirm_mutant.sh in a scratch worktree of /repo (removed afterwards)"},
+           "quick_checks_with_patch": checks}, open(sys.argv[2], "w"), indent=1)
+PY
+rm -f "/tmp/confirm-results-$$.tsv"
 echo "stored /verif/seeded/$NAME"
